@@ -72,6 +72,15 @@ def gen_cases(tier, rng):
             parts = tc.partitions2(s) + [tc.singletons(s)]
         for p in parts:
             cases.append((tc.with_chunks(line, p), tag + ":chunked"))
+    # tree level: the real parser into RcDom (no model: tree-builder model is a separate package)
+    tdocs = list(TREE_DOCS)
+    for line in tc.random_soup(rng, 150 if tier == "quick" else 5000):
+        tdocs.append(tc.fields(line)["chunks"][0])
+    for d in tdocs:
+        for ctx in ("-", "-!", "html:div", "html:table", "html:select", "html:template") if d in TREE_DOCS else ("-",):
+            cases.append((_tree_case(ctx, [d]), "tree:whole"))
+            for part in tc.partitions2(d) + [tc.singletons(d)]:
+                cases.append((_tree_case(ctx, part), "tree:chunked"))
     # pauses and injections
     docs = ["<script>a</script>b<script>c</script>d", "x<meta>y<script>z</script>\r\nw", "<script></script>﻿q"]
     injs = ["", "X", "<b>", "﻿Y", "\nZ", "</p>&amp;"]
@@ -90,6 +99,24 @@ def gen_cases(tier, rng):
     return cases
 
 
+TREE_DOCS = [
+    "<table> \n oops<tr><td>x</table>", "<table>  <tbody> a <tr> b <td> c </table> d", "<table>x y<tr>z", "<table><tr> <td>",
+    "<pre>\nx</pre><pre>\r\ny</pre><textarea>\n\nz</textarea><listing>\r\rq</listing>", "<pre>&#10;x</pre>", "<pre>\n\0x</pre>",
+    " \n<!DOCTYPE html> \n<html> <head> <title> a </title> </head> <body> b </body> </html> c ",
+    "<p>a<b>b<i>c</p>d</b>e</i>f", "<a>1<table><a>2</table>3", "<select><option>a<optgroup>b</select>c",
+    "<svg><title>a</title><![CDATA[b]]>c</svg>d", "<math><mi>a</mi><annotation-xml encoding=text/html><p>b</math>",
+    "<template><td>a</template><frameset></frameset>x", "x<frameset>y</frameset>", "<head></head> a <body> b",
+    "<script>a<!--b</script>c--></script>d", "<style>a</style> <title>b&amp;c</title>&notit;",
+    "<body>a\0b<table>c\0d</table><select>e\0f</select>", "<p>&am", "p;x", "<br/><img a=1 a=2><input type=hidden>",
+    "<table><input type=hidden><input type=text>x</table>", "<ul><li>a<li>b<dd>c<dt>d</ul>e", "<h1>a<h2>b</h1>c",
+    "<button>a<button>b", "<form><form>x</form>y", "<nobr>a<nobr>b", "<ruby>a<rt>b<rp>c</ruby>",
+]
+
+
+def _tree_case(ctx, chunks):
+    return "meta\tdoc\t%s\t%s" % (ctx, "|".join(" ".join("%x" % b for b in c.encode("utf-8")) or "-" for c in chunks))
+
+
 def _pause_pos(d, k):
     """offset right after the k-th tag at which RAW_POL pauses (<meta …> start tag or </script> end tag)"""
     import re
@@ -98,11 +125,21 @@ def _pause_pos(d, k):
 
 
 def _key(line):
+    if line.startswith("meta\t"):
+        f = line.split("\t")
+        data = "".join(x for c in f[3].split("|") for x in ([] if c == "-" else [c + " "]))
+        return ("tree", f[2], data.strip())
     f = tc.fields(line)
     return (f["opts"], f["state"], f["last"], f["pol"], f["inj"], "".join(f["chunks"]))
 
 
 def _toks(out):
+    if out is not None and ";T=" in out or (out or "").startswith("T="):
+        # tree engine: compare the trees (manual feed loop and Parser::process); the *tree builder's* parse
+        # error count is not part of the property (only the tokenizer's parse errors are) and legitimately
+        # depends on how character runs are split
+        import re as _re
+        return _re.sub(r";E=\d+", "", out)
     p = tc.parse_out(out)
     if p is None:
         return None
@@ -110,7 +147,19 @@ def _toks(out):
     return toks, [x for x in flog.split(",") if x != "D"]
 
 
+def compare(line, impl, model):
+    return line.startswith("meta\t") or impl == model
+
+
 def oracle(line, out):
+    if line.startswith("meta\t"):
+        if out is None or out.startswith(("PANIC", "ABORT", "bad-")):
+            return "parser crashed: %s" % (out or "")[:200]
+        a, _, b = out.partition(" ## ")
+        ta = a[a.index("T="):] if "T=" in a else a
+        if ta.replace(";E=", ";E=") != b:
+            return "manual feed loop and Parser::process disagree on the same chunks: %s" % out[:300]
+        return None
     if tc.parse_out(out) is None:
         return "implementation crashed or malformed output: %s" % (out or "")[:200]
     toks, _ = tc.parse_out(out)
@@ -163,6 +212,8 @@ def oracle_all(cases, outs):
 
 
 def nontrivial(line, out):
+    if line.startswith("meta\t"):
+        return "|" in line.split("\t")[3]
     f = tc.fields(line)
     ch = f["chunks"]
     return out is not None and len(ch) >= 2 and any(ch[:-1]) and any(ch[1:])
